@@ -743,7 +743,8 @@ pub fn batch_main<P: Prop>(p: &P, opts: &Options) -> i32 {
                 if let Some(fid) = p.known_finding(&c, &v) {
                     if let Some((_, what)) = known.iter().find(|(k, _)| k == fid) {
                         *known_hits.entry(fid.to_string()).or_insert(0) += 1;
-                        println!("KNOWN-FINDING: property={id} {fid}: {what} [regression input '{label}': {}]", v.class);
+                        let _ = what;
+                        println!("known finding {fid} reproduced by regression input '{label}': class={}", v.class);
                         continue;
                     }
                 }
